@@ -145,6 +145,27 @@ func (r *RigS) onRegistration(st *SimStream) {
 	r.mu.Lock()
 	r.delivered[fmt.Sprintf("%d|%d|%d", tgt, st.Coll, st.Shard)] = -1
 	r.mu.Unlock()
+	if r.plan.Prop == "C03" && len(r.st.Regs) > 0 {
+		rec := &r.st.Regs[len(r.st.Regs)-1]
+		rec.Tgt, rec.Coll, rec.Owner, rec.CkptMs = tgt, st.Coll, owner, -1
+		if c := r.collByID[st.Coll]; c != nil {
+			if dc := r.st.SDK[tgt].Colls[c.DB+"/"+c.Name]; dc != nil {
+				for _, v := range dc.VCh {
+					rec.TgtPChs = append(rec.TgtPChs, physOf(v))
+				}
+			}
+		}
+		// the version of the stored checkpoint that names the message id the stream is registered with (the record may have
+		// been written again between the moment the service read it and the registration)
+		r.noteCheckpointVersions()
+		h := r.st.CkptHist[fmt.Sprintf("%s|%d|%s", owner, st.Coll, st.PCh)]
+		for i := len(h) - 1; i >= 0; i-- {
+			if int(h[i][0]) == st.SeekSeq {
+				rec.CkptMs = h[i][1]
+				break
+			}
+		}
+	}
 	log := r.mq.Logs[st.PCh]
 	from, again := r.st.Domain[key]
 	if !again {
@@ -583,7 +604,34 @@ func (r *RigS) unacked(tgt int, coll int64, shard, from, to int) []int64 {
 }
 
 // checkCheckpoints: every persisted checkpoint identifies a position up to which everything is acknowledged; dropped ones are frozen.
+// noteCheckpointVersions (C03 runs) remembers every version of every stored checkpoint (message id, time).
+func (r *RigS) noteCheckpointVersions() {
+	if r.plan.Prop != "C03" {
+		return
+	}
+	poss, err := r.storePositions()
+	if err != nil {
+		return
+	}
+	if r.st.CkptHist == nil {
+		r.st.CkptHist = map[string][][2]int64{}
+	}
+	for _, p := range poss {
+		for pch, pi := range p.Positions {
+			if pi == nil || pi.DataPair == nil {
+				continue
+			}
+			k := fmt.Sprintf("%s|%d|%s", p.TaskID, p.CollectionID, pch)
+			v := [2]int64{int64(MsgIDToSeq(pi.DataPair.Data)), pi.Time}
+			if h := r.st.CkptHist[k]; len(h) == 0 || h[len(h)-1] != v {
+				r.st.CkptHist[k] = append(h, v)
+			}
+		}
+	}
+}
+
 func (r *RigS) checkCheckpoints() {
+	r.noteCheckpointVersions()
 	poss, err := r.storePositions()
 	if err != nil {
 		return
@@ -1328,6 +1376,9 @@ func (r *RigS) finalOracles() {
 		r.checkPartitionDrops(tasks, sn, ok && len(s.Parked()) == 0)
 		return
 	}
+	if r.plan.Prop == "C03" {
+		r.checkAckTime()
+	}
 	if r.plan.Prop != "C05" && r.plan.Prop != "C06" {
 		return
 	}
@@ -1493,6 +1544,154 @@ func (r *RigS) finalOracles() {
 			s.Violate("C05", "lost_message"+cls, "task %s is running and idle at the end, but messages %v of collection %d shard %d never reached target %d", owner, lost, coll, shard, tgt)
 			// the same observation read as C06: a message that is not delivered while its task stays Running was skipped silently
 			s.Violate("C06", "silently_skipped"+cls, "task %s is Running (store and memory) and idle at the end, no failure is shown, but messages %v of collection %d shard %d never reached target %d", owner, lost, coll, shard, tgt)
+		}
+	}
+}
+
+// ------------------------------------------------------------------ C03 on the whole server
+
+// checkAckTime judges the sequence of acknowledged packs of every downstream channel over all incarnations (C03): every
+// pack ends with a tick, closing ticks never decrease, every data message lies above the closing tick of every earlier
+// pack and not above its own, and in a pack with data the pack's begin / end times are those of its messages.
+//
+// Known finding KF-C03-resume-floor-per-collection: after a restart (or a resume that rebuilds the replication entity) the
+// time floor of a downstream channel is rebuilt from the checkpoint of each collection as its stream is registered
+// (seek time = checkpoint time + 1 ms); packs that were acknowledged on the channel beyond that checkpoint before the stop
+// (packs of other collections further ahead, packs acknowledged but not yet recorded) lie above that floor, so the first
+// packs of the resumed stream regress against them. The class is attached only when the regressing pack lies above the
+// floor that the stored checkpoint of a stream registered on that channel implies, and the pack it regresses against was
+// acknowledged before that registration.
+func (r *RigS) checkAckTime() {
+	s := r.s
+	type mark struct {
+		tick      uint64
+		inc, step int
+		n, seq    int
+		stale     bool
+	}
+	before := func(ai, as, bi, bs int) bool { return ai < bi || (ai == bi && as < bs) }
+	for tgt := range r.st.SDK {
+		last := map[string]*mark{}
+		for n, a := range r.st.SDK[tgt].Acks {
+			if len(a.Msgs) == 0 {
+				continue
+			}
+			lm := a.Msgs[len(a.Msgs)-1]
+			if lm.Type != "tick" && lm.Type != "rtick" {
+				s.Violate("C03", "S_pack_without_tick", "target %d channel %s: acknowledged pack #%d [%d,%d] ends with a %s message, not with a tick", tgt, a.Channel, n, a.BeginTs, a.EndTs, lm.Type)
+				continue
+			}
+			T := lm.Ts
+			s.Probe("S_ack_time_checked")
+			minTs, maxData, minData := T, uint64(0), uint64(0)
+			name := ""
+			for _, m := range a.Msgs[:len(a.Msgs)-1] {
+				if m.Type == "tick" || m.Type == "rtick" || strings.HasPrefix(m.Type, "undecodable") {
+					continue
+				}
+				if m.Ts < minTs {
+					minTs = m.Ts
+				}
+				if m.Ts > maxData {
+					maxData = m.Ts
+				}
+				if minData == 0 || m.Ts < minData {
+					minData = m.Ts
+				}
+				if name == "" {
+					name = m.Name
+				}
+				if m.Ts > T {
+					s.Violate("C03", "S_msg_after_own_tick", "target %d channel %s: %s message tag=%d carries time %d, above the closing tick %d of its own pack (#%d)", tgt, a.Channel, m.Type, m.Tag, m.Ts, T, n)
+				}
+			}
+			if maxData != 0 && (a.BeginTs != minData || a.EndTs != maxData) {
+				s.Violate("C03", "S_pack_ts_disagree", "target %d channel %s: pack #%d is announced as [%d,%d] but its messages span [%d,%d]", tgt, a.Channel, n, a.BeginTs, a.EndTs, minData, maxData)
+			}
+			prev := last[a.Channel]
+			if prev != nil && (T < prev.tick || (maxData != 0 && minData <= prev.tick)) {
+				cls := ""
+				for i := range r.st.Regs {
+					g := &r.st.Regs[i]
+					if g.Owner == "" || g.Tgt != tgt || !contains(g.TgtPChs, a.Channel) || !before(g.Inc, g.Step, a.Inc, a.Step+1) {
+						continue
+					}
+					if c := r.collByID[g.Coll]; name != "" && (c == nil || c.Name != name) {
+						continue
+					}
+					floor := uint64(0)
+					if g.CkptMs >= 0 {
+						floor = uint64(g.CkptMs+1) << 18
+					}
+					if minTs > floor && !before(g.Inc, g.Step, prev.inc, prev.step) {
+						cls = "_resume_floor_below_acknowledged"
+						s.Probe("S_resume_floor_below_acknowledged")
+					}
+				}
+				if cls == "" && prev.stale {
+					// the pack it regresses against had been computed by an earlier registration of its stream and waited in the
+					// queue of the shared replication entity across the stop (KF-C05-stale-pack-after-resume): it carries times
+					// from before the stop, above the floor the resumed streams start from
+					cls = "_stale_pack_after_resume"
+					s.Probe("S_regress_against_stale_pack")
+				}
+				if cls == "" && a.Inc == prev.inc {
+					// computed under the channel lock in the right order, enqueued in another one (KF-C03-overtake: the lock is
+					// released before the pack is put into the channel's queue)
+					lo := r.st.LockOrder[a.Channel]
+					find := func(inc int, tick uint64, seq int, from int) int {
+						for i := from; i < len(lo); i++ {
+							if int(lo[i][0]) == inc && lo[i][1] == tick && int(lo[i][2]) == seq {
+								return i
+							}
+						}
+						return -1
+					}
+					if pi := find(a.Inc, T, a.EndSeq, 0); pi >= 0 {
+						if mi := find(prev.inc, prev.tick, prev.seq, pi+1); mi > pi {
+							cls = "_overtake"
+							s.Probe("S_enqueue_overtaken")
+						}
+					}
+				}
+				if cls == "" && maxData != 0 {
+					// a pure re-delivery: every data message of the pack had been acknowledged on this downstream before (it is
+					// read again after a stop from the checkpoint, which lies behind the acknowledgements, and stamped from the
+					// floor that checkpoint implies)
+					again := true
+					for _, m := range a.Msgs {
+						if m.Type == "ins" || m.Type == "del" || m.Type == "dropp" || m.Type == "dropc" {
+							seen := false
+							for _, b := range r.st.SDK[tgt].Acks[:n] {
+								for _, bm := range b.Msgs {
+									if bm.Type == m.Type && bm.Tag == m.Tag {
+										seen = true
+									}
+								}
+							}
+							again = again && seen
+						}
+					}
+					if again {
+						cls = "_resume_floor_below_acknowledged"
+						s.Probe("S_redelivery_below_acknowledged")
+					}
+				}
+				rule, what := "S_tick_regress", fmt.Sprintf("closing tick %d", T)
+				if maxData != 0 && minData <= prev.tick {
+					rule, what = "S_msg_not_after_tick", fmt.Sprintf("data message time %d", minData)
+				}
+				cands := ""
+				for i := range r.st.Regs {
+					if g := &r.st.Regs[i]; g.Owner != "" && g.Tgt == tgt {
+						cands += fmt.Sprintf(" [%s inc=%d step=%d ckpt_ms=%d on %v]", g.VCh, g.Inc, g.Step, g.CkptMs, g.TgtPChs)
+					}
+				}
+				s.Violate("C03", rule+cls, "target %d channel %s: pack #%d (incarnation %d, step %d) carries %s, not above the closing tick %d of the earlier pack #%d (incarnation %d, step %d); stream registrations on this downstream:%s", tgt, a.Channel, n, a.Inc, a.Step, what, prev.tick, prev.n, prev.inc, prev.step, cands)
+			}
+			if prev == nil || T >= prev.tick {
+				last[a.Channel] = &mark{tick: T, inc: a.Inc, step: a.Step, n: n, seq: a.EndSeq, stale: a.EndSeq > a.OpenMax}
+			}
 		}
 	}
 }
